@@ -28,6 +28,8 @@ PROP = {'drive': ['Metrics'], 'harness_files': ['area_metrics.go', 'area_metrics
                        'C12_hmtx_widths_roundtrip',
                        'C12_widthpdf_def',
                        'C12_fontbboxpdf_image',
+                       'C12_extent_encloses',
+                       'C12_glyphbboxpdf_image',
                        'C12_cff_fractional_extends',
                        'C12_fixedpitch_written'],
  'areas': [('metrics', 400, 6000)],
@@ -40,8 +42,8 @@ PROP = {'drive': ['Metrics'], 'harness_files': ['area_metrics.go', 'area_metrics
              'D metrics.caretrt); the tie class rise=0, run<0 (sign of a float -0 decides) is excluded',
              'metric queries in PDF units are modelled over exact rationals; theorems cover uniform positive '
              'font matrices [s 0 0 s 0 0] (FontBBoxPDF image) and matrices without shear product (widths); the '
-             'general matrix is modelled and V-streamed (dyadic matrices, exact in float64) but has no image '
-             'theorem; CID-keyed CFF fonts (per-FD matrices), WidthsMapPDF and GlyphWidth are not modelled',
+             'per-glyph GlyphBBoxPDF is proved for every matrix (C12_glyphbboxpdf_image) and judged on the real '
+             'code by D metrics.dbboxpdf; the FontBBoxPDF = image-of-FontBBox theorem needs a uniform matrix; CID-keyed CFF fonts (per-FD matrices), WidthsMapPDF and GlyphWidth are not modelled',
              'float evaluation of the queries is compared after rounding to 2^-20; near-ties are detected with '
              'exact arithmetic in the harness and sent as diagnostics only',
              'fractional CFF widths: the writer model (int(w), funit.Int16(w), |width-w| >= 0.5) is V-streamed '
